@@ -430,7 +430,13 @@ func (sc scenario) run(t *testing.T, cfg vs.Config) explore.Exec {
 }
 
 func (sc scenario) scenario() explore.Scenario {
-	return explore.Scenario{Name: sc.name(), Desc: sc, Run: sc.run, Horizon: 3, MaxSteps: 4000}
+	es := explore.Scenario{Name: sc.name(), Desc: sc, Run: sc.run, Horizon: 3, MaxSteps: 4000}
+	// more ready targets than workers: callers wait inside the pool's queue, whose 1 s backstop
+	// timer may fire while commands are still running
+	if sc.Workers == 1 && (sc.Graph == "indep3" || sc.Graph == "indep4" || sc.Graph == "fork") {
+		es.ClockChoices = 1
+	}
+	return es
 }
 
 func subsets(n int, maxSize int) [][]int {
